@@ -15,7 +15,9 @@ RULE = ("Batches for the five conversions in bionumpy.io.strops. Integers: the c
         "Float text: 1..17 significant digits, optional '-', optional fraction (including '.5' and '5.'), optional lower-case exponent -300..300 "
         "with optional sign. Doubles: Hypothesis finite floats and a log-uniform sample. Oracles: ints_to_strings == str(v); str_to_int == int(text); "
         "join/split inverse element by element; str_to_float within 8 ulp of float(text); str_to_float(float_to_strings(x)) == x; and "
-        "independence: the result for a row is bit-identical in the full batch, alone, and in a permuted batch. "
+        "independence: the result for a row is bit-identical in the full batch, alone, and in a permuted batch. The same integer and float texts are also "
+        "read as the columns of a tab-separated file whose columns are all numeric (1..3 columns, the first value often narrower than a later one, with and "
+        "without a header line, LF and CRLF), through the delimited-buffer reader, with the same oracles. "
         "Non-trivial: a batch mixing at least two widths, or a value within 2 of a power of ten.")
 ASSUMPTIONS = [
     "A leading '+' on float text and an upper-case 'E' are a tolerant class: equals float(text) or raises (the parser documents neither).",
@@ -23,9 +25,9 @@ ASSUMPTIONS = [
     "An empty batch may raise or return an empty result.",
 ]
 REQUIRED_CLASSES = ["i2s", "s2i", "ilist", "s2f", "f2s2f", "mixed-widths", "near-power-of-ten", "negative", "leading-zeros", "plus-sign",
-                    "scientific", "missing-placeholder"]
-BOUNDS = {"quick": "boundary set complete (singly and in 40 mixed batches); 2500 Hypothesis batches per conversion (about 20 000 values each)",
-          "thorough": "boundary set complete; 60 000 batches per conversion (about 500 000 values each)"}
+                    "scientific", "missing-placeholder", "file-column", "file-column-first-value-narrower-than-widest", "file-column-signed"]
+BOUNDS = {"quick": "boundary set complete (singly and in 40 mixed batches); 2500 Hypothesis batches per conversion (about 20 000 values each); 1250 numeric-column files, each read whole, reversed, first row alone and without its first row",
+          "thorough": "boundary set complete; 60 000 batches per conversion (about 500 000 values each); 30 000 numeric-column files"}
 BUDGET_S = {"quick": 200, "thorough": 1500}
 
 BOUNDARY = sorted({0, 2 ** 63 - 1, -2 ** 63, 2 ** 63 - 2, -2 ** 63 + 1} |
@@ -79,6 +81,17 @@ def classify(case):
         if any(t.startswith("-") for t in texts):
             cl.append("negative")
         return len(widths) > 1, cl
+    if k == "filecols":
+        rows = case["rows"]
+        widths = {len(r[0]) for r in rows}
+        cl.append("file-column")
+        if len(widths) > 1:
+            cl.append("mixed-widths")
+        if rows and len(rows[0][0]) < max(len(r[0]) for r in rows):
+            cl.append("file-column-first-value-narrower-than-widest")
+        if any(t.startswith(("+", "-")) for r in rows for t, ty in zip(r, case["types"]) if ty == "int"):
+            cl.append("file-column-signed")
+        return len(widths) > 1, cl
     if k == "f2s2f":
         widths = {len(repr(float(v))) for v in vals}
         if len(widths) > 1:
@@ -105,6 +118,37 @@ def _ilist_view_failure(strops, lists, want, batches, keep_last):
         if got != [want[i] for i in idx]:
             return Failure("C18:int-list-join-batch-dependent", {"batch": tag + ":view", "rows": idx, "expected": [want[i] for i in idx], "actual": got})
     return None
+
+
+_FILE_CLASSES = {}
+
+
+def _read_columns(rows, types, header, crlf, lazy=False):
+    """Write the rows as a tab-separated file whose columns are all numeric and read it through the delimited-buffer reader."""
+    import os
+    import tempfile
+    import bionumpy as bnp
+    from bionumpy.bnpdataclass import bnpdataclass
+    from bionumpy.io.delimited_buffers import get_bufferclass_for_datatype
+    key = tuple(types)
+    if key not in _FILE_CLASSES:
+        ns = {"__annotations__": {f"c{i}": (int if t == "int" else float) for i, t in enumerate(types)}}
+        _FILE_CLASSES[key] = bnpdataclass(type("NumCols" + "".join(t[0] for t in types), (), ns))
+    if header:
+        bt = get_bufferclass_for_datatype(_FILE_CLASSES[key], delimiter="\t", has_header=True)
+    else:   # a headerless table is declared the way the library declares its own formats
+        from bionumpy.io.delimited_buffers import DelimitedBuffer
+        bt = type("NumColsBuffer", (DelimitedBuffer,), {"dataclass": _FILE_CLASSES[key]})
+    eol = "\r\n" if crlf else "\n"
+    text = ("\t".join(f"c{i}" for i in range(len(types))) + eol if header else "") + "".join("\t".join(r) + eol for r in rows)
+    with tempfile.TemporaryDirectory(prefix="pbtc18") as d:
+        path = os.path.join(d, "cols.tsv")
+        with open(path, "wb") as f:
+            f.write(text.encode())
+        fh = bnp.open(path, buffer_type=bt, lazy=lazy)
+        table = fh.read()
+        fh.close()
+        return [getattr(table, f"c{i}").tolist() for i in range(len(types))]
 
 
 def check(case, stats=None):
@@ -212,6 +256,36 @@ def check(case, stats=None):
                             break
                 if out:
                     break
+        elif k == "filecols":
+            # the same conversions as a text file's numeric columns are parsed (the fixed-width digit matrix of a delimited column)
+            rows, types = case["rows"], case["types"]
+            ref = None
+            for tag, idx in batches(rows):
+                if tag.startswith("single") and tag != "single0" or tag == "rotated":
+                    continue        # (each batch is a file: the full one, reversed, the first row alone, all but the first row)
+                got = _read_columns([rows[i] for i in idx], types, bool(case.get("header")), bool(case.get("crlf")), bool(case.get("lazy")))
+                for c, ty in enumerate(types):
+                    for pos, i in enumerate(idx):
+                        t, g = rows[i][c], got[c][pos]
+                        if ty == "int":
+                            if g != int(t):
+                                out.append(Failure("C18:file-int-column" if tag == "full" else "C18:file-int-column-batch-dependent",
+                                                   {"batch": tag, "column": c, "text": t, "value": g, "column_texts": [rows[i_][c] for i_ in idx][:12]}))
+                                break
+                        else:
+                            d = formats.ulp_diff(float(t), g)
+                            if d > 8:
+                                out.append(Failure("C18:file-float-column", {"batch": tag, "column": c, "text": t, "actual": repr(g), "ulps": d}))
+                                break
+                            if ref is not None and bits(g) != ref[c][i]:
+                                out.append(Failure("C18:file-float-column-batch-dependent", {"batch": tag, "column": c, "text": t, "in_sub_batch": repr(g)}))
+                                break
+                    if out:
+                        break
+                if out:
+                    break
+                if tag == "full":
+                    ref = [[bits(float(x)) for x in col] if ty == "float" else None for col, ty in zip(got, types)]
         elif k == "f2s2f":
             vals = [float(v) for v in case["values"]]
             text = strops.float_to_strings(np.array(vals, dtype=np.float64)).tolist()
@@ -228,7 +302,7 @@ def check(case, stats=None):
                     j = next(i for i, (v, b) in enumerate(zip(vals, back)) if v != b)
                     out.append(Failure("C18:float-roundtrip-within-8ulp", {"value": repr(vals[j]), "text": text[j], "parsed": repr(back[j]), "ulps": worst}))
     except Exception as e:  # noqa
-        if not (case.get("values") or case.get("texts") or case.get("lists")):
+        if not (case.get("values") or case.get("texts") or case.get("lists") or case.get("rows")):
             if stats is not None:
                 stats.tolerant["empty-batch-raises"] += 1
             return []
@@ -329,6 +403,16 @@ def batch_case(draw, kind):
         return {"kind": kind, "texts": texts}
     if kind == "f2s2f":
         return {"kind": kind, "values": draw(st.lists(doubles, min_size=n, max_size=n))}
+    if kind == "filecols":
+        types = draw(st.sampled_from([["int"], ["int", "int"], ["int", "float"], ["float", "int"], ["int", "int", "int"], ["float"]]))
+        signed = draw(st.integers(0, 2)) == 0
+        unsigned_text = st.builds(lambda v, z: "0" * z + str(min(abs(v), 2 ** 63 - 1)), ints64, st.sampled_from([0, 0, 0, 1, 2]))
+        cell = {"int": int_text() if signed else unsigned_text, "float": float_text()}
+        rows = [[draw(cell[t]) for t in types] for _ in range(n)]
+        if draw(st.booleans()) and types[0] == "int":
+            rows[0][0] = str(draw(st.integers(0, 99)))       # a short first value before wider ones
+        return {"kind": kind, "types": types, "rows": rows, "header": draw(st.booleans()), "crlf": draw(st.integers(0, 4)) == 0,
+                "lazy": draw(st.booleans())}
     raise ValueError(kind)
 
 
@@ -337,7 +421,7 @@ def task_kind(stats, known_open, kind, n, seed):
     core.run_hypothesis(sys.modules[__name__], batch_case(kind), stats, known_open, max_examples=n, seed=seed)
 
 
-KINDS = ["i2s", "s2i", "s2i_missing", "ilist", "s2f", "f2s2f"]
+KINDS = ["i2s", "s2i", "s2i_missing", "ilist", "s2f", "f2s2f", "filecols"]
 
 
 def tasks(tier, seed):
@@ -345,5 +429,5 @@ def tasks(tier, seed):
     out = [("task_boundary", {})]
     for i, k in enumerate(KINDS):
         for j in range(reps):
-            out.append(("task_kind", dict(kind=k, n=n, seed=seed * 1000 + i * 10 + j)))
+            out.append(("task_kind", dict(kind=k, n=n // 2 if k == "filecols" else n, seed=seed * 1000 + i * 10 + j)))
     return out
